@@ -209,7 +209,55 @@ pub fn handle(parts: &[&str], out: &mut impl Write) {
                 std::fs::write(&path, &bytes).unwrap();
                 let r = crate::guard(|| AsepriteFile::read_file(&path));
                 let _ = std::fs::remove_file(&path);
-                print_result(out, r, len);
+                // a failing file-backed load must carry the same error value as loading the same
+                // bytes from memory does (compared through the Debug text of the source)
+                let src_text = |e: &asefile::AsepriteParseError| {
+                    std::error::Error::source(e).map(|s| format!("{:?}", s))
+                };
+                let differs = match &r {
+                    Some(Err(e @ asefile::AsepriteParseError::IoError(_))) => {
+                        match crate::guard(|| AsepriteFile::read(io::Cursor::new(&bytes))) {
+                            Some(Err(m @ asefile::AsepriteParseError::IoError(_))) => src_text(e) != src_text(&m),
+                            _ => false,
+                        }
+                    }
+                    _ => false,
+                };
+                if differs {
+                    writeln!(out, "load err io:file-error-differs-from-memory (read_file carries another error value than read on the same bytes)").unwrap();
+                } else {
+                    print_result(out, r, len);
+                }
+            } else if parts[3] == "missingfile" || parts[3] == "dirfile" {
+                // read_file on a path that does not exist / on a directory: the error the OS reported
+                // (compared with what std::fs reports for the same path) must be the one carried as source
+                let path = if parts[3] == "dirfile" {
+                    std::env::temp_dir()
+                } else {
+                    std::env::temp_dir().join(format!("observe-missing-{}-{}.aseprite", std::process::id(), parts[1].replace('/', "_")))
+                };
+                let expected: Option<io::Error> = match std::fs::File::open(&path) {
+                    Err(e) => Some(e),
+                    Ok(mut f) => {
+                        let mut b = [0u8; 16];
+                        io::Read::read(&mut f, &mut b).err()
+                    }
+                };
+                let r = crate::guard(|| AsepriteFile::read_file(&path));
+                match (&r, &expected) {
+                    (None, _) => writeln!(out, "load panic").unwrap(),
+                    (Some(Ok(_)), _) => writeln!(out, "load ok").unwrap(),
+                    (Some(Err(e)), Some(x)) => {
+                        let got = std::error::Error::source(e).and_then(|s| s.downcast_ref::<io::Error>());
+                        match got {
+                            Some(g) if g.raw_os_error() == x.raw_os_error() && g.kind() == x.kind() && format!("{:?}", g) == format!("{:?}", x) =>
+                                writeln!(out, "load err io:os-error-carried").unwrap(),
+                            Some(g) => writeln!(out, "load err io:os-error-replaced (source {:?}, the OS reported {:?})", g, x).unwrap(),
+                            None => writeln!(out, "load err {} (not the IoError variant with an io::Error source)", crate::err_name(e)).unwrap(),
+                        }
+                    }
+                    (Some(Err(e)), None) => writeln!(out, "load err {} (std::fs reports no error for this path)", crate::err_name(e)).unwrap(),
+                }
             } else {
                 match parse_events(parts[3]) {
                     None => writeln!(out, "bad-events").unwrap(),
